@@ -290,7 +290,7 @@ def _install_recorder(world):
     orig = P.SshServer.emit
 
     def emit(self, sock, kind, data, **kw):
-        world.log(ev='srv_emit', n=self.n, idx=self.out_idx, kind=kind, data=bytes(data).hex())
+        world.log(ev='srv_emit', n=self.k, idx=self.out_idx, kind=kind, data=bytes(data).hex())
         return orig(self, sock, kind, data, **kw)
     P.SshServer.emit = emit
 
